@@ -178,6 +178,8 @@ type c15op struct {
 
 type c15program struct {
 	Workers [][]fsx.Step `json:"workers"`
+	// Post: judged by a postcondition each goroutine can check for itself instead of by serializability (see c15postcondition)
+	Post bool `json:"post,omitempty"`
 }
 
 func (p c15program) String() string {
@@ -302,6 +304,7 @@ type c15exec struct {
 	branching []int
 	switches  int
 	hung      bool
+	results   [][]fsx.Result
 	lockLeft  bool // all goroutines returned, but the final tree could not be read: the dump shows the reader parked on a lock
 	panic     string
 }
@@ -348,6 +351,7 @@ func c15execute(p c15program, prefix []int, rnd *rand.Rand) c15exec {
 	ok := s.run()
 	ex := c15exec{trace: s.trace, branching: s.branching, switches: s.switches, hung: !ok, panic: panicked}
 	if ok {
+		ex.results = results
 		wr.Hook, wr.Notify = nil, nil
 		// every goroutine has returned: the store must be free. Reading the final tree under a watchdog catches a lock
 		// that one of the operations never released (the read would otherwise park this process for good).
@@ -385,7 +389,54 @@ func c15pairCount(env *core.Env) int {
 }
 
 func c15schedCount(env *core.Env) int {
-	return c15pairCount(env)/40 + 1 + len(c15observerPrograms()) + env.Pick(200, 3000)
+	return c15pairCount(env)/40 + 1 + len(c15observerPrograms()) + len(c15postPrograms()) + env.Pick(200, 3000)
+}
+
+// c15postPrograms: goroutines that only create (MkdirAll of overlapping chains; nothing is ever removed) and then use what
+// their own MkdirAll said is there. MkdirAll is known not to be atomic for an observer (F46) - but whatever the
+// interleaving, once ITS MkdirAll(p) has returned nil a goroutine finds p and every directory above p.
+func c15postPrograms() []c15program {
+	mk := func(p string) fsx.Step { return fsx.Step{K: "MkdirAll", P: p, Perm: 0o755} }
+	st := func(p string) fsx.Step { return fsx.Step{K: "Stat", P: p} }
+	return []c15program{
+		{Post: true, Workers: [][]fsx.Step{{mk("n/a/b")}, {mk("n/a/b"), st("n/a"), st("n")}}},
+		{Post: true, Workers: [][]fsx.Step{{mk("n/a/b")}, {mk("n/a/b"), {K: "Create", P: "n/a/file"}}}},
+		{Post: true, Workers: [][]fsx.Step{{mk("e/p/q")}, {mk("e/p/q"), st("e/p"), st("e/p/q")}}},
+		{Post: true, Workers: [][]fsx.Step{{mk("n/a/b")}, {mk("n/a"), st("n"), {K: "Mkdir", P: "n/a/c", Perm: 0o755}}}},
+		{Post: true, Workers: [][]fsx.Step{{mk("n/a/b/c")}, {mk("n/a/b"), st("n/a"), st("n")}}},
+		{Post: true, Workers: [][]fsx.Step{{mk("n/a/b"), st("n/a")}, {mk("n/a/b"), st("n/a")}}},
+		{Post: true, Workers: [][]fsx.Step{{mk("n/a/b")}, {mk("n/a/c")}, {mk("n/a/b"), st("n/a"), st("n")}}},
+	}
+}
+
+// c15postcondition returns what a goroutine found missing after its own successful MkdirAll ("" = nothing).
+func c15postcondition(p c15program, results [][]fsx.Result) string {
+	for w, ops := range p.Workers {
+		if w >= len(results) {
+			continue
+		}
+		for i, st := range ops {
+			if st.K != "MkdirAll" || i >= len(results[w]) || !results[w][i].OK() {
+				continue
+			}
+			for j := i + 1; j < len(ops) && j < len(results[w]); j++ {
+				use := ops[j]
+				under := use.P == st.P || strings.HasPrefix(st.P, use.P+"/")
+				inDir := strings.HasPrefix(st.P+"/", pathDir(use.P)+"/") // (Create/Mkdir of a new name in a directory of the chain)
+				if (use.K == "Stat" && under || (use.K == "Create" || use.K == "Mkdir") && inDir) && !results[w][j].OK() {
+					return fmt.Sprintf("g%d: %s returned nil, and then %s in the same goroutine failed: %s", w, st, use, results[w][j])
+				}
+			}
+		}
+	}
+	return ""
+}
+
+func pathDir(p string) string {
+	if i := strings.LastIndex(p, "/"); i > 0 {
+		return p[:i]
+	}
+	return "."
 }
 
 // c15observerPrograms: one goroutine performs a single mutating operation, the other looks twice (at the two names
@@ -481,7 +532,10 @@ type c15stats struct {
 // c15explore enumerates schedules of p (depth-first over choice sequences, then random walks) and returns the first
 // execution that is not serializable, hangs or panics.
 func c15explore(p c15program, limit int, r *rand.Rand) (*c15exec, string, c15stats) {
-	legal := c15sequential(p)
+	var legal map[string]bool
+	if !p.Post {
+		legal = c15sequential(p)
+	}
 	st := c15stats{outcomes: map[string]bool{}, exhaustive: true}
 	bad := func(ex c15exec) string {
 		st.explored++
@@ -495,6 +549,12 @@ func c15explore(p c15program, limit int, r *rand.Rand) (*c15exec, string, c15sta
 			return "panic"
 		}
 		st.outcomes[ex.outcome] = true
+		if p.Post {
+			if c15postcondition(p, ex.results) != "" {
+				return "mkdirall-postcondition"
+			}
+			return ""
+		}
 		if !legal[ex.outcome] {
 			return "not-serializable"
 		}
@@ -585,6 +645,8 @@ func c15sched(env *core.Env, cs c15case, idx int, res *core.CaseResult) {
 		}
 	} else if obs := cs.Rep - pairBlocks; obs < len(c15observerPrograms()) {
 		programs = append(programs, c15observerPrograms()[obs])
+	} else if post := cs.Rep - pairBlocks - len(c15observerPrograms()); post < len(c15postPrograms()) {
+		programs = append(programs, c15postPrograms()[post])
 	} else {
 		programs = append(programs, c15genProgram(r))
 	}
@@ -603,7 +665,7 @@ func c15sched(env *core.Env, cs c15case, idx int, res *core.CaseResult) {
 		res.Seen("program_shapes", c15shape(p))
 		if ex != nil {
 			min, mex := p, ex
-			if what != "hang" { // (every re-execution of a hanging program waits for the watchdog again)
+			if what != "hang" && what != "mkdirall-postcondition" { // (every re-execution of a hanging program waits for the watchdog again)
 				min = c15minimise(p, what, limit, r)
 				mex, _, _ = c15explore(min, limit, r)
 			}
@@ -622,6 +684,9 @@ func c15sched(env *core.Env, cs c15case, idx int, res *core.CaseResult) {
 				}
 			case "panic":
 				detail += "panic: " + ex.panic
+			case "mkdirall-postcondition":
+				detail = fmt.Sprintf("program [%s] (nothing is ever removed in it): under one schedule %s", p, c15postcondition(p, ex.results))
+				shape = "own-MkdirAll-returned-nil-but-a-directory-of-the-chain-is-missing"
 			default:
 				detail += fmt.Sprintf("a schedule produced results and a tree that no sequential order of the same operations produces (%d sequential outcomes exist)", len(c15sequential(min)))
 			}
